@@ -1,5 +1,8 @@
 """C03 cases: division and remainder."""
 from .common import *
+from .knuth import addback_pairs, knuth_events
+
+EXTRA_QUICK = ["8x4", "16x4", "32x4", "64x4", "64x5"]  # n >= 4: add-back at quotient positions j >= 1
 
 BIN = ["checked_div", "checked_rem", "checked_div_euclid", "checked_rem_euclid",
        "overflowing_div", "overflowing_rem", "overflowing_div_euclid", "overflowing_rem_euclid",
@@ -61,7 +64,25 @@ def div_pair(rng, w, n, signed):
 
 def gen(rng, tier):
     reps = 120 if tier == "thorough" else 14
-    for cfg in cfgs(tier):
+    clist = cfgs(tier) if tier == "thorough" else cfgs(tier) + EXTRA_QUICK
+    # directed Knuth-D cases: operand pairs whose division takes the add-back branch (found by exact simulation)
+    for cfg in clist:
+        w, n = wn(cfg)
+        if n < 2 or n > 40:
+            continue
+        W = w * n
+        for (u, v) in addback_pairs(rng, w, n, 24 if tier == "thorough" else 8):
+            ev = knuth_events(u, v, w)
+            tag = "knuth-addback@%d" % max(ev["addback"])
+            for op in ("checked_div", "checked_rem", "div", "rem", "checked_rem_euclid", "overflowing_div_euclid"):
+                yield f"{op} u{cfg} {hx(u)} {hx(v)}", tag
+            if u < (1 << (W - 1)):
+                for sa in (1, -1):
+                    for sb in (1, -1):
+                        yield f"checked_div i{cfg} {hx(pat(sa * u, W))} {hx(pat(sb * v, W))}", tag
+                        yield f"checked_rem i{cfg} {hx(pat(sa * u, W))} {hx(pat(sb * v, W))}", tag
+                        yield f"checked_rem_euclid i{cfg} {hx(pat(sa * u, W))} {hx(pat(sb * v, W))}", tag
+    for cfg in clist:
         w, n = wn(cfg)
         if n > 40 and tier != "thorough":
             continue
